@@ -160,14 +160,15 @@ RefRefine(prof, H) ==
 
 (* --- implementation-shaped model of the current design ------------------------------------- *)
 (* set -> list in arbitrary order `seq` -> stable sort by start only -> single greedy passes that
-   look at the last kept hit only.  fix.total: sort by a total key; fix.span: a merge spans its
+   look at the last kept hit only.  fix.total: sort by a total key (start, best score, longest,
+   name, e-value); fix.span: a merge spans its
    fragments; fix.chains: every finished merge chain of a profile is kept, not just the last.    *)
 NoFix == [total |-> FALSE, span |-> FALSE, chains |-> FALSE]
 AllFix == [total |-> TRUE, span |-> TRUE, chains |-> TRUE]
 
 ImplSort(prof, seq, fix) ==
     StableSortBy(seq, [i \in DOMAIN seq |->
-        IF fix.total THEN <<seq[i].s, 0 - seq[i].sc, seq[i].e, prof[seq[i].p].ord, seq[i].ev>>
+        IF fix.total THEN <<seq[i].s, 0 - seq[i].sc, 0 - seq[i].e, prof[seq[i].p].ord, seq[i].ev>>
         ELSE <<seq[i].s>>])
 
 ImplMerge(x, y, fix) ==
